@@ -113,11 +113,17 @@ class ClassModel:
                 name = _is_not_none_test(st.test, selfname)
                 if name is None:
                     raise AnalysisError(f"{self.name}.{which}: guard `{S.unparse(st.test)}` is not of the form self.X is not None")
-                for inner in st.body:
-                    em = self._emit(inner, selfname, acc, is_iter)
-                    if em is None or em[1] != ("self", name):
-                        raise AnalysisError(f"{self.name}.{which}: unexpected statement under guard: {S.unparse(inner)}")
-                    out.append(("child", name, em[0]))
+                def under(stmts, guard_name, outer):
+                    for inner in stmts:
+                        if isinstance(inner, ast.If) and not inner.orelse and _is_not_none_test(inner.test, selfname) is not None:
+                            # an emission nested under the guard of ANOTHER field: recorded as such (it is not the specified shape)
+                            under(inner.body, _is_not_none_test(inner.test, selfname), outer + (guard_name,))
+                            continue
+                        em = self._emit(inner, selfname, acc, is_iter)
+                        if em is None or em[1] != ("self", guard_name):
+                            raise AnalysisError(f"{self.name}.{which}: unexpected statement under guard: {S.unparse(inner)}")
+                        out.append(("child", guard_name, em[0]) if not outer else ("child-only-if", guard_name, em[0], outer))
+                under(st.body, name, ())
                 continue
             if isinstance(st, ast.For) and not st.orelse:
                 seq, tolerant, loopvars = _seq_iter(st, selfname)
